@@ -368,6 +368,94 @@ ASSUMPTIONS = [
 ]
 
 
+# ---------------------------------------------------------------------------------------------
+# Laws over delta's own built-in features (differential: no hand-written expected values)
+
+LAW_FEATS = ["navigate", "line-numbers", "side-by-side", "diff-so-fancy", "diff-highlight", "raw", "color-only",
+             "hyperlinks"]
+LAW_VALUES = dict((o, "normal 17") for o in [
+    "commit-style", "file-style", "hunk-header-style", "minus-style", "minus-non-emph-style", "minus-emph-style",
+    "minus-empty-line-marker-style", "zero-style", "plus-style", "plus-non-emph-style", "plus-emph-style",
+    "plus-empty-line-marker-style", "grep-file-style", "grep-line-number-style", "whitespace-error-style"])
+LAW_VALUES.update({"blame-palette": "#010203 #040506", "file-added-label": "v_cli", "file-modified-label": "v_cli",
+                   "file-removed-label": "v_cli", "file-renamed-label": "v_cli", "right-arrow": "v_cli",
+                   "max-line-distance": "0.11", "max-line-length": "77", "diff-stat-align-width": "21",
+                   "line-fill-method": "ansi", "navigate-regex": "v_cli", "pager": "v_cli", "width": "91", "tabs": "11",
+                   "word-diff-regex": "v_cli", "syntax-theme": "GitHub"})
+
+
+def run_laws(task):
+    """(1) the command line wins over every built-in feature: the value --show-config reports for `--O=v` is the same
+    with and without a feature enabled (by flag, --features or DELTA_FEATURES), with and without a gitconfig file;
+    (2) of two built-in features listed together the last-listed wins: where A alone and B alone both change an
+    option, to different values, `A B` gives B's value."""
+    which, deadline = task
+    home = os.path.join(BUILD, "tmp", "c13_laws_%d" % os.getpid())
+    os.makedirs(home, exist_ok=True)
+    cfg = os.path.join(home, "empty.gitconfig")
+    with open(cfg, "w") as f:
+        f.write("[delta]\n")
+    drv = explore.get_driver(extra_env={"HOME": home, "XDG_CONFIG_HOME": home}, cwd=home)
+    viols = {}
+    n = 0
+    distinct = set()
+
+    def sc(args, env=None):
+        try:
+            cid = drv.mkconfig(args, env)
+        except explore.Rejected as e:
+            return {"_rejected": str(e)[:80]}
+        out, feats = drv.showconfig(cid)
+        drv.drop(cid)
+        return parse_show_config(out)
+
+    def note(klass, msg, args, env):
+        if klass not in viols:
+            v = Violation(klass, msg, [], None, None, None, {"env": env})
+            v.args = args
+            v.env = env
+            viols[klass] = v
+
+    for cfgmode in ("no-gitconfig", "config"):
+        base = ["--paging=never", "--detect-dark-light=never", "--dark"] + \
+            (["--no-gitconfig"] if cfgmode == "no-gitconfig" else ["--config=" + cfg])
+        if which == "cli-wins":
+            for o, v in sorted(LAW_VALUES.items()):
+                ref = sc(base + ["--%s=%s" % (o, v)]).get(o)
+                for f in LAW_FEATS:
+                    if (o, f) == ("max-line-length", "side-by-side"):
+                        continue    # documented: side-by-side raises the limit so that there is text to wrap
+                    for form in ("flag", "features", "env"):
+                        env = {"features": f} if form == "env" else None
+                        a = base + (["--" + f] if form == "flag" else ["--features=" + f] if form == "features" else []) \
+                            + ["--%s=%s" % (o, v)]
+                        got = sc(a, env).get(o)
+                        n += 1
+                        distinct.add((o, got))
+                        if got != ref:
+                            note("cli-does-not-win:" + o, "--%s=%s gives %r, but %r once the built-in feature %s is enabled "
+                                 "(%s, %s)" % (o, v, ref, got, f, form, cfgmode), a, env)
+        else:
+            dflt = sc(base)
+            alone = dict((f, sc(base + ["--features=" + f])) for f in LAW_FEATS)
+            for A, B in itertools.permutations(LAW_FEATS, 2):
+                for form in ("features", "env"):
+                    env = {"features": "%s %s" % (A, B)} if form == "env" else None
+                    a = base + (["--features=%s %s" % (A, B)] if form == "features" else [])
+                    got = sc(a, env)
+                    for o in dflt:
+                        x, y, d = alone[A].get(o), alone[B].get(o), dflt.get(o)
+                        if B == "side-by-side" and o.startswith("minus-"):
+                            continue    # not a setting of the feature: delta derives these from the defaults under side-by-side
+                        if x != d and y != d and x != y:
+                            n += 1
+                            distinct.add((o, got.get(o)))
+                            if got.get(o) != y:
+                                note("last-listed-does-not-win:" + cfgmode, "features %r: %s = %r; %s alone gives %r, %s alone "
+                                     "gives %r (%s)" % (A + " " + B, o, got.get(o), A, x, B, y, form), a, env)
+    return {"n": n, "violations": list(viols.values()), "distinct": distinct}
+
+
 def main(tier):
     t0 = time.time()
     build.ensure_built()
@@ -395,6 +483,7 @@ def main(tier):
     tasks = [(seeds, cases[i:i + step], deadline) for i in range(0, len(cases), step)]
     res = explore.pmap(run_task, tasks)
     dres = explore.pmap(run_determinism, [(list(range(8 if tier == "quick" else 32)), deadline)])
+    lres = explore.pmap(run_laws, [("cli-wins", deadline), ("last-listed", deadline)])
     n = sum(r["n"] for r in res)
     orders = set()
     distinct = set()
@@ -405,6 +494,9 @@ def main(tier):
         viols.extend(r["violations"])
     for r in dres:
         viols.extend(r["violations"])
+    for r in lres:
+        viols.extend(r["violations"])
+        distinct |= r["distinct"]
     best = {}
     for v in viols:
         if v.klass not in best:
@@ -412,7 +504,8 @@ def main(tier):
     viols = sorted(best.values(), key=lambda v: v.klass)
     caps = [1 for r in res if r["capped"]]
     cov = {
-        "evaluations": n * 3 + sum(r["n"] for r in dres),
+        "evaluations": n * 3 + sum(r["n"] for r in dres) + sum(r["n"] for r in lres),
+        "builtin_feature_law_evaluations": sum(r["n"] for r in lres),
         "distinct_nontrivial": len(distinct),
         "rule": "evaluation = one (feature graph, source placement) materialised as gitconfig file + command "
                 "line + environment, resolved by the real option processing (with --config, from $HOME, and "
